@@ -206,7 +206,7 @@ CHECKS = {
        "API (parse of a function whose docstring documents any permutation of any subset of <=3/4 signature parameters); TLC "
        "checks Functional and Covered exhaustively (~1.2M states) and must REJECT the pinned set-iteration merge rule on every "
        "run. Binding: the TLC-enumerated inputs (as untyped and typed functions and as classes), emitters with inferred imports "
-       "on 6 interfaces x 11 formats (two with type names the lookup tables do not hold: Determinism!CallTable) and the repository's mock docstrings are executed in fresh interpreter processes with "
+       "on 6 interfaces and a seeded population of 24 / 120 more (equal-valued defaults of different types) x 12 formats (two with type names the lookup tables do not hold: Determinism!CallTable) and the repository's mock docstrings are executed in fresh interpreter processes with "
        "PYTHONHASHSEED in {0..3, random} (quick) / {0..11, random x2} (thorough) and call orders natural / every call twice / "
        "reversed / shuffled; verdict: all observations of one (api, input) hash equal; the merged events are validated by TLC "
        "against TraceDeterminism.tla (with a corrupted-event binding demonstration).",
